@@ -64,7 +64,9 @@ fn resolve_frames(raw: &[RawCall], f: Features) -> Vec<FrameSpec> {
                 // a streaming call may be flagged oneway too (about one Sub in seven): the service still
                 // answers with a stream, which the server has to discard
                 oneway: r.oneway && (!sub || r.flags_first),
-                more: sub,
+                // a client may also ask for `more` from a method that answers with a single reply
+                // (also together with oneway)
+                more: sub || r.soup.0 % 6 == 0,
                 pad: r.pad,
                 flags_first: r.flags_first,
             }
@@ -85,7 +87,8 @@ fn raw_conn_strategy(f: Features) -> impl Strategy<Value = RawConn> {
     (
         prop::collection::vec(raw_call_strategy(f), 0..=f.max_calls),
         chunk_plan_strategy(),
-        if f.faults { 0u8..6 } else { 0u8..1 },
+        // without faults a client may still finish and hang up cleanly after its last call (4 = EOF)
+        if f.faults { (0u8..6).boxed() } else { prop_oneof![3 => Just(0u8), 1 => Just(4u8)].boxed() },
         prop::bool::weighted(0.2).prop_map(move |b| b && f.faults),
         prop::option::weighted(0.15, 0u8..6).prop_map(move |o| o.filter(|_| f.faults)),
     )
